@@ -149,6 +149,9 @@ func c09ValueFor(r *rand.Rand, kind string, pBad int) string {
 			return "!no"
 		}
 	}
+	if r.Intn(150) == 0 { // a value longer than a read buffer
+		return strings.Repeat("long", 160) + fmt.Sprint(r.Intn(10))
+	}
 	return []string{"v", "w", "hello", "", "42", "über", "a b", "x=y&z", "true"}[r.Intn(9)] + fmt.Sprint(r.Intn(10))
 }
 
@@ -452,11 +455,18 @@ func c09GenCase(r *rand.Rand) *c09Case {
 			c.RawTail = c.RawTail[1:]
 		}
 	}
-	switch r.Intn(12) {
-	case 0:
+	switch k := r.Intn(100); { // how the length of the body is (not) declared
+	case k < 12:
 		c.LenMode = "unknown"
-	case 1:
+	case k < 20:
+		c.LenMode = "chunked"
+	case k < 27:
 		c.LenMode = "zero"
+	case k < 27+c09ServerPercent:
+		c.LenMode = "server"
+		if len(c.Params) > 0 && r.Intn(2) == 0 {
+			c.Params = nil // a route without path parameters: the case really goes through the server
+		}
 	}
 	return c
 }
@@ -556,14 +566,62 @@ func c09CatLeaves(name string) []c09GenLeaf {
 
 func c09Gen(r *rand.Rand, tier string) []any {
 	n := 9000
+	c09ServerPercent = 2
 	if tier == "thorough" {
 		n = 120000
+		c09ServerPercent = 8
 	}
 	out := c09NearMissBlock(r)
 	out = append(out, c09FilesBlock(r)...)
 	out = append(out, c09ProcessBlock(r)...)
+	out = append(out, c09LengthBlock(r)...)
 	for i := 0; i < n; i++ {
 		out = append(out, c09GenCase(r))
+	}
+	return out
+}
+
+// percentage of Bind / BindBody cases sent through the real server (set by c09Gen from the tier)
+var c09ServerPercent = 2
+
+// deterministic block: every body kind (urlencoded, multipart, JSON, XML, unsupported, no
+// Content-Type) with a good and a malformed content x {ContentLength -1, -1 + chunked, real
+// server} x methods x three destinations: precedence, 400 and 415 must not depend on how the
+// length of the body is declared
+func c09LengthBlock(r *rand.Rand) []any {
+	var out []any
+	type bk struct {
+		kind, ctype, body string
+		form              []c09KV
+	}
+	good := []c09KV{{K: "id", V: []string{"5"}}, {K: "name", V: []string{"n"}}, {K: "u", V: []string{"x"}}, {K: "note", V: []string{"t"}}}
+	bad := []c09KV{{K: "id", V: []string{"abc"}}, {K: "u", V: []string{"!no"}}, {K: "name", V: []string{"n"}}}
+	kinds := []bk{
+		{"form", "application/x-www-form-urlencoded", "", good}, {"form", "application/x-www-form-urlencoded", "", bad},
+		{"multipart", c09MultipartCT, "", good}, {"multipart", c09MultipartCT, "", bad},
+		// bodies longer than one read buffer: the keys that matter come after 700 bytes of padding
+		{"form", "application/x-www-form-urlencoded", "", append([]c09KV{{K: "pad", V: []string{strings.Repeat("x", 700)}}}, good...)},
+		{"form", "application/x-www-form-urlencoded", "", append([]c09KV{{K: "a-pad", V: []string{strings.Repeat("x", 700)}}}, bad...)},
+		{"multipart", c09MultipartCT, "", append([]c09KV{{K: "pad", V: []string{strings.Repeat("x", 700)}}}, good...)},
+		{"raw", "application/json", `{"pad":"` + strings.Repeat("x", 700) + `","id":5,"name":"j"}`, nil},
+		{"raw", "application/json", `{"id":5,"name":"j","ID":7}`, nil}, {"raw", "application/json", `{"id":"x"`, nil},
+		{"raw", "application/xml", "<r><Name>x</Name><ID>3</ID></r>", nil}, {"raw", "text/xml", "<r><Name>x</Name>", nil},
+		{"raw", "text/plain", "id=5&name=n", nil}, {"raw", "", "id=5", nil}, {"raw", "application/x-www-form-urlencoded", "id=%zz", nil},
+	}
+	for _, dest := range []string{"cat:unmarshalers", "cat:mass", "map:str"} {
+		for _, k := range kinds {
+			for _, mode := range []string{"unknown", "chunked", "server"} {
+				for _, method := range []string{"POST", "GET"} {
+					c := &c09Case{Dest: dest, InitSeed: r.Int63(), Op: []string{"bind", "body"}[r.Intn(2)], Method: method, LenMode: mode,
+						BodyKind: k.kind, CType: k.ctype, Body: k.body, Form: k.form,
+						Query: []c09KV{{K: "id", V: []string{"9"}}, {K: "name", V: []string{"q"}}}}
+					if mode != "server" && r.Intn(2) == 0 {
+						c.Params = []c09KV{{K: "id", V: []string{"1"}}}
+					}
+					out = append(out, c)
+				}
+			}
+		}
 	}
 	return out
 }
@@ -891,6 +949,11 @@ func c09Shrink(ci any) []any {
 		d := *c
 		d.LenMode = ""
 		out = append(out, &d)
+		if c.LenMode == "server" || c.LenMode == "chunked" {
+			d2 := *c
+			d2.LenMode = "unknown"
+			out = append(out, &d2)
+		}
 	}
 	if c.RawTail != "" {
 		d := *c
